@@ -7,9 +7,11 @@
   not filter boundaries;
 * `Kernel.evaluate` / `Kernel.toSlidingWindow` (a sampled function whose values sum to 0 makes the
   normalisation divide by zero) and the kernel functions of `UniformKernel`, `TriangularKernel`,
-  `EpanechnikovKernel` (tracklib/core/kernel.py); a user-defined kernel (`Kernel` + `setFunction`)
-  given by a table of values at the integers (`tableF`); the other kernel functions (`math.exp`,
-  `math.pow`) are a function parameter;
+  `EpanechnikovKernel`, `CubicKernel`, `SphericKernel` (`math.pow` with an integer exponent is a
+  product), `GaussianKernel`, `ExponentialKernel` (`math.exp` and the constant `math.sqrt(2*math.pi)`
+  are parameters) (tracklib/core/kernel.py); a user-defined kernel (`Kernel` + `setFunction`)
+  given by a table of values at the integers (`tableF`); any other kernel function is a function
+  parameter;
 * `Track.operate(Operator.FILTER, af_in, kernel, af_out)` on a track seen as named signals
   (`operate`): a kernel given as the name of a feature, the order of the failures (kernel
   preparation, even window, reserved output name, empty track, unknown input feature), the
@@ -158,6 +160,33 @@ support `1.5 * size` -/
 def epanechnikovF (size x : α) : α :=
   (((3 : Nat) : α) / ((4 : Nat) : α) * (1 - (x / size) * (x / size)) * ind (absv x ≤ size)) / size
 def epanechnikovSupport (size : α) : α := onePointFive * size
+
+/-- `math.pow(a, n)` for the integer exponents `n` used by `CubicKernel` and `SphericKernel` -/
+def powN (a : α) : Nat → α
+  | 0 => 1
+  | n + 1 => powN a n * a
+
+/-- `CubicKernel(sigma)`: `f = lambda x: 1-(7*math.pow((abs(x)/sigma),2) - 35/4*math.pow((abs(x)/sigma),3)
++ 7/2*math.pow((abs(x)/sigma),5) - 3/4*math.pow((abs(x)/sigma),7))`, support `sigma` -/
+def cubicF (sigma x : α) : α :=
+  1 - (((7 : Nat) : α) * powN (absv x / sigma) 2 - ((35 : Nat) : α) / ((4 : Nat) : α) * powN (absv x / sigma) 3
+    + ((7 : Nat) : α) / ((2 : Nat) : α) * powN (absv x / sigma) 5 - ((3 : Nat) : α) / ((4 : Nat) : α) * powN (absv x / sigma) 7)
+def cubicSupport (sigma : α) : α := sigma
+
+/-- `SphericKernel(sigma)`: `f = lambda x: 1-(3/2*abs(x)/sigma - 1/2*math.pow(abs(x)/sigma,3))`, support `sigma` -/
+def sphericF (sigma x : α) : α :=
+  1 - (((3 : Nat) : α) / ((2 : Nat) : α) * absv x / sigma - (1 : α) / ((2 : Nat) : α) * powN (absv x / sigma) 3)
+def sphericSupport (sigma : α) : α := sigma
+
+/-- `GaussianKernel(sigma)`: `f = lambda x: math.exp(-0.5 * (x / sigma) ** 2) / (sigma * math.sqrt(2 * math.pi))`,
+support `3 * sigma`; `expF` stands for `math.exp`, `sqrt2pi` for `math.sqrt(2 * math.pi)` -/
+def gaussianF (expF : α → α) (sqrt2pi : α) (sigma x : α) : α :=
+  expF (-((1 : α) / ((2 : Nat) : α)) * ((x / sigma) * (x / sigma))) / (sigma * sqrt2pi)
+def gaussianSupport (sigma : α) : α := ((3 : Nat) : α) * sigma
+
+/-- `ExponentialKernel(sigma)`: `f = lambda x: math.exp(-abs(x) / sigma) / (2 * sigma)`, support `3 * sigma` -/
+def exponentialF (expF : α → α) (sigma x : α) : α := expF (-(absv x) / sigma) / (((2 : Nat) : α) * sigma)
+def exponentialSupport (sigma : α) : α := ((3 : Nat) : α) * sigma
 
 /-- the `kernel` argument of `Filter.execute` -/
 inductive KArg (α : Type) where
